@@ -34,6 +34,7 @@ def gen_mine(rng, latest_bias=0.6, max_txs=4):
         'dt': rng.choice([1, 1, 2, 30, 60, 120, 600, rng.randrange(1, 5000)]),
         'clock': rng.choice([0, 0, -30, -29, -1, 1, 30, 3600, rng.randrange(-30, 100000)]),
         'via': rng.choice(['memory', 'bytes']),
+        'data_len': rng.choice([None, None, 0, 1, rng.randrange(201), rng.randrange(40, 80), 199, 200]),
     }
 
 
